@@ -136,7 +136,7 @@ func (p *c17) plan(ctx core.Ctx) c17Plan {
 
 func (p *c17) Plan(ctx core.Ctx) int {
 	pl := p.plan(ctx)
-	return c17NEmbed() + pl.seqEx + pl.pathEx0 + pl.pathExM + pl.seqRand + pl.pathRand + pl.reuse
+	return c17NCacheKey + c17NEmbed() + pl.seqEx + pl.pathEx0 + pl.pathExM + pl.seqRand + pl.pathRand + pl.reuse
 }
 
 func (p *c17) Decode(raw json.RawMessage) (any, error) { return core.JSONDecode[c17Case](raw) }
@@ -145,6 +145,12 @@ var c17ChainCache = map[string][][]int{}
 
 func (p *c17) Gen(ctx core.Ctx, i int) any {
 	pl := p.plan(ctx)
+	if i < c17NCacheKey {
+		// the first case of every worker process (cases are dealt round-robin to 16 workers): the process-wide cache
+		// of parsed paths is still empty, which is the only time two path texts can come to share an entry
+		return c17Case{Part: "cachekey", Mode: i}
+	}
+	i -= c17NCacheKey
 	if i < c17NEmbed() {
 		return c17GenEmbed(i)
 	}
@@ -1513,6 +1519,10 @@ func (p *c17) Exec(ctx core.Ctx, cc any) core.Obs {
 	case "embed":
 		var o core.Obs
 		c17ExecEmbed(c, &o)
+		return o
+	case "cachekey":
+		var o core.Obs
+		c17ExecCacheKey(c, &o)
 		return o
 	case "path":
 		return p.execPath(ctx, c)
